@@ -411,6 +411,8 @@ impl Default for Limits {
 }
 
 struct Executor {
+    /// entries of the ready queue that were there at the last pick (already in canonical order)
+    stable_len: usize,
     last_progress: (u64, u64, u64),
     shared: Arc<Shared>,
     slots: Vec<Slot>,
@@ -479,8 +481,15 @@ impl Executor {
         let mut r = self.shared.ready.lock().unwrap();
         let len = r.queue.len();
         if len == 0 {
+            self.stable_len = 0;
             return None;
         }
+        // Tasks woken since the last pick are queued in task-id order, not in the order the code
+        // under test happened to wake them (which follows the iteration order of its hash maps
+        // when a session or connection drops its channels): the schedule is the scheduler's
+        // choice alone
+        let sl = self.stable_len.min(len);
+        r.queue[sl..].sort_unstable();
         let idx = if len == 1 {
             0
         } else {
@@ -523,6 +532,7 @@ impl Executor {
         };
         let id = r.queue.remove(idx);
         r.queued[id] = false;
+        self.stable_len = r.queue.len();
         Some(id)
     }
 }
@@ -808,6 +818,7 @@ where
             });
             let deadline = Box::pin(tokio::time::sleep(limits.max_virtual));
             let mut ex = Executor {
+                stable_len: 0,
                 last_progress: (0, 0, 0),
                 shared,
                 slots: Vec::new(),
